@@ -638,6 +638,14 @@ func (ex *Exec) violation(kind, label string) {
 
 func (ex *Exec) violationAt(kind, label string, m *Model) {
 	v := &Violation{Kind: kind, Label: label, Site: ex.siteForViolation(), Model: m.clone(), Trace: ex.trace(), Harness: ex.h.Name}
+	if ex.sched != nil && len(ex.sched.events) > 0 {
+		ev := ex.sched.events
+		if len(ev) > 60 {
+			ev = ev[len(ev)-60:]
+		}
+		v.Trace = append(append([]string{}, v.Trace...), "--- schedule ---")
+		v.Trace = append(v.Trace, ev...)
+	}
 	ex.res.Violations = append(ex.res.Violations, v)
 }
 
